@@ -410,7 +410,7 @@ def _norm_err(flat):
 
 
 def explore(ctx: runner.Ctx):
-    ctx.given(st_case(), lambda c: check_case(ctx, c), ctx.budget(1600, 60000))
+    ctx.given(st_case(), lambda c: check_case(ctx, c), ctx.budget(3000, 100000))
 
 
 RULE = ("cases = (logical model spec with 2-6 fields incl. optional nested model, name_mapping recipe, input values, 0-3 "
